@@ -206,13 +206,18 @@ def check_phase(res, spec, obs, ph, ta=25.0, want=("C01", "C02", "C04"), d=None,
     return rows
 
 
-def solve_and_check(res, spec, want, ta=25.0, solve_kw=None, holes=None):
+def solve_and_check(res, spec, want, ta=25.0, solve_kw=None, holes=None, rej=False):
     """Build the real system, solve it (all phases) and run the row oracles for every phase.
     Returns (system, obs) or (system, None) when solve() raised RuntimeError / 'Unstable' (not judged here)."""
     from .common import quiet_call
     from .sysmodel import build, observe, build_holes
     s = build(spec) if not holes else build_holes(spec, analyse=(holes == "analysed"))   # holes: the same structure through an edit history
     res.stats["transitions"] += len(spec["comps"]) + 1
+    if rej:   # every documented refusal (edits and analyses) is provoked first; the table must still be that of the structure
+        from .sysmodel import rejected_edits
+        if rejected_edits(s, spec):
+            res.classes.add("refused-call-accepted")
+            return s, None
     try:
         df, _ = quiet_call(s.solve, ta=ta, **(solve_kw or {}))
     except RuntimeError as e:
